@@ -48,7 +48,10 @@ def classify(case, detail):
     if f["go"] == "accept" and f["spec"] == "invalid":
         if f["eff"] == "explains:static-skip":
             return "static-skip-hides-errors"
-        if f["eff"] == "explains:fragdef-dirs":
+        # (the directive-level part of fragment-definition-directives-unvalidated -- undefined or repeated directives on a
+        #  fragment definition -- was repaired in /repo, work/fix3_fragment-definition-directives-unvalidated.patch: the
+        #  driver reports it as eff=fragdef-dirs-prevalidated, which is not mapped; the arguments of such directives stay)
+        if f["eff"] == "explains:fragdef-dir-args":
             return "fragment-definition-directives-unvalidated"
         keys = []
         for r in f["erules"]:
@@ -67,7 +70,39 @@ def classify(case, detail):
     return None
 
 
+def _admission_calls(src):
+    """The option / rule lists of the Normalize and ValidateForSchema calls of an admission sequence, in source order."""
+    out = []
+    for m in re.finditer(r"\.(Normalize|ValidateForSchema)\(", src):
+        i, depth = m.end(), 1
+        while i < len(src) and depth:
+            depth += {"(": 1, ")": -1}.get(src[i], 0)
+            i += 1
+        out.append((m.group(1), re.findall(r"\b(?:astnormalization|astvalidation)\.(\w+)\(", src[m.end():i])))
+    return out
+
+
+def admission_tie(chk):
+    """harness/cmd/c04/pipeline.go replicates the admission calls of ExecutionEngine.Execute; the replica is compared
+    with the engine's source on every run (the prevalidation list decides what is checked before fragment definitions
+    and statically skipped selections are dissolved)."""
+    import anchors
+    try:
+        eng = anchors.func_body(open(os.path.join(vlib.REPO, "execution/engine/execution_engine.go")).read(), "Execute")
+        rep = anchors.func_body(open(os.path.join(vlib.ROOT, "harness/cmd/c04/pipeline.go")).read(), "admit")
+    except (OSError, anchors.AnchorError) as e:
+        chk.add_violation("tie:C04/admission-sequence", "cannot read the admission sequence: %s" % e, found_input=False)
+        return
+    a, b = _admission_calls(eng)[:3], _admission_calls(rep)[:3]
+    chk.coverage["admission_sequence"] = ["%s(%s)" % (k, ", ".join(v)) for (k, v) in a]
+    if a != b or len(a) != 3:
+        chk.add_violation("tie:C04/admission-sequence",
+                          "ExecutionEngine.Execute admits with %r, harness/cmd/c04/pipeline.go replicates %r" % (a, b),
+                          found_input=False)
+
+
 def run(chk):
+    admission_tie(chk)
     n = 1000 if chk.tier == "quick" else 50000
     nm = 300 if chk.tier == "quick" else 5000
     chk.coverage["rule"] = RULE
